@@ -45,11 +45,54 @@ def base_call(call, prog, cls):
 
 
 def feasible(path, ev, env):
-    """may all branch conditions of the path hold under env?"""
-    for test, pol in path.conds():
-        v = ev.eval3(test, env)
-        if v is not None and v != pol:
-            return False
+    """may all branch conditions of the path hold under env?  Locals assigned on the path (flags such as
+    `ok = a and b`, values returned by an inlined helper) are followed: a condition is evaluated with every local
+    replaced by the expression it holds at that point of the path."""
+    sym = {}
+    plain = True
+    for e in path.events:
+        if e.kind == "stmt" and isinstance(e.node, (ast.Assign, ast.AugAssign)):
+            plain = False
+            break
+    if plain:
+        for test, pol in path.conds():
+            v = ev.eval3(test, env)
+            if v is not None and v != pol:
+                return False
+        return True
+    for e in path.events:
+        if e.kind == "cond":
+            v = ev.eval3(e.node, env)
+            if v is None and sym:
+                names = {x.id for x in ast.walk(e.node) if isinstance(x, ast.Name)}
+                if names & set(sym):
+                    try:
+                        v = ev.eval3(_SubstText(sym).visit(clone(e.node)), env)
+                    except Exception:
+                        v = None
+            if v is not None and v != e.pol:
+                return False
+        elif e.kind == "stmt":
+            n = e.node
+            if isinstance(n, ast.Assign) and len(n.targets) == 1 and isinstance(n.targets[0], ast.Name):
+                k = n.targets[0].id
+                if k in env:
+                    continue            # the caller fixed this name
+                try:
+                    sym[k] = _SubstText(sym).visit(clone(n.value))
+                except Exception:
+                    sym.pop(k, None)
+            elif isinstance(n, ast.Assign):
+                for t in n.targets:
+                    for x in ast.walk(t):
+                        if isinstance(x, ast.Name):
+                            sym.pop(x.id, None)
+            elif isinstance(n, ast.AugAssign) and isinstance(n.target, ast.Name):
+                sym.pop(n.target.id, None)
+        elif e.kind in ("loop1", "loop0") and isinstance(e.node, ast.For):
+            for x in ast.walk(e.node.target):
+                if isinstance(x, ast.Name):
+                    sym.pop(x.id, None)
     return True
 
 
